@@ -117,3 +117,49 @@ Proof.
   - apply q_runb_sound. vm_compute. reflexivity.
   - apply quiescentb_sound. vm_compute. reflexivity.
 Qed.
+
+(* ---------- the full (unguarded) statements and their refutations ---------- *)
+Definition never_older_full : Prop := forall fx T ns l1 l2,
+  world_le (run fx T (world0 ns) l1) (run fx T (world0 ns) (l1 ++ l2)).
+
+Lemma never_older_full_refuted : ~ never_older_full.
+Proof. intros H. exact (leasepath_refuted true (H true 2 [1; 2; 3] lp_prefix lp_last)). Qed.
+
+Definition quiescent_full : Prop := forall T ns l,
+  quiescent (run true T (world0 ns) l) ->
+  forall n m k, entry_at (run true T (world0 ns) l) n k = entry_at (run true T (world0 ns) l) m k.
+
+Lemma sir_quiescent : quiescent (run true 1 (world0 [1; 2; 3]) sir_script).
+Proof. apply quiescentb_sound. vm_compute. reflexivity. Qed.
+Lemma sir_entry_1 : entry_at (run true 1 (world0 [1; 2; 3]) sir_script) 1 1 = Some (Op 1 1 1 false 10).
+Proof. vm_compute. reflexivity. Qed.
+Lemma sir_entry_3 : entry_at (run true 1 (world0 [1; 2; 3]) sir_script) 3 1 = None.
+Proof. vm_compute. reflexivity. Qed.
+
+Lemma quiescent_full_refuted : ~ quiescent_full.
+Proof.
+  intros H. pose proof (H 1 [1; 2; 3] sir_script sir_quiescent 1 3 1) as E.
+  rewrite sir_entry_1, sir_entry_3 in E. discriminate.
+Qed.
+
+Definition restart_script : list step_t := [SWrite 1 1 10 0; SRestart 1; SRound 1 2 false; SRound 2 1 false].
+Lemma restart_refutes :
+  quiescent (run true 1 (world0 [1; 2]) restart_script) /\
+  entry_at (run true 1 (world0 [1; 2]) restart_script) 1 1 = Some (Op 1 1 1 false 10) /\
+  entry_at (run true 1 (world0 [1; 2]) restart_script) 2 1 = None.
+Proof. split; [apply quiescentb_sound; vm_compute; reflexivity|]. split; vm_compute; reflexivity. Qed.
+
+Lemma f5_unfixed_refutes :
+  quiescent (run false 1 (world0 [1; 2]) f5_script) /\
+  entry_at (run false 1 (world0 [1; 2]) f5_script) 1 1 = Some (Op 1 2 1 false 11) /\
+  entry_at (run false 1 (world0 [1; 2]) f5_script) 2 1 = Some (Op 1 1 1 false 10).
+Proof. split; [apply quiescentb_sound; vm_compute; reflexivity|]. split; vm_compute; reflexivity. Qed.
+
+Lemma f5_fixed_entry : entry_at (run true 1 (world0 [1; 2]) f5_script) 2 1 = Some (Op 1 2 1 false 11).
+Proof. vm_compute. reflexivity. Qed.
+
+Lemma recovery_refuted_true :
+  ~ world_le (run true 1 (world0 [1; 2; 3]) rs_prefix) (run true 1 (world0 [1; 2; 3]) (rs_prefix ++ rs_last)) /\
+  entry_at (run true 1 (world0 [1; 2; 3]) rp_prefix) 3 1 = Some (Op 1 2 1 false 11) /\
+  entry_at (run true 1 (world0 [1; 2; 3]) (rp_prefix ++ rp_last)) 3 1 = Some (Op 1 1 1 false 10).
+Proof. split; [exact (recovery_split_refuted true)|]. split; vm_compute; reflexivity. Qed.
